@@ -364,6 +364,14 @@ impl Instance {
             )
         })?;
 
+        ensure!(
+            bound.lower.is_finite() && bound.upper.is_finite(),
+            "Bound must be finite for log-encoding: ID={}, lower={}, upper={}",
+            decision_variable_id,
+            bound.lower,
+            bound.upper
+        );
+
         // Bound of integer may be non-integer value
         let upper = bound.upper.floor();
         let lower = bound.lower.ceil();
